@@ -88,6 +88,7 @@ type Cfg struct {
 	StreamBodies     bool     // the application's pages stream their bodies with io.Copy instead of calling WriteHeader/Write
 	BCryptCost       int      // Modules.BCryptCost (0: 4, the cost of every seeded hash); 5 = the cost was raised after the accounts were created
 	AppendedRules    bool     // the application appended rules of its own to the shipped body reader's login / recover_start / register rulesets
+	SeparateEmail    bool     // a username site: the user type's e-mail address is not derived from the primary identifier (new accounts have none until the profile is filled in)
 	PersistArbitrary bool     // the user type stores every key PutArbitrary hands it (only sensible with an explicit RegWhitelist)
 }
 
@@ -286,6 +287,7 @@ func New(cfg Cfg, salt string) (w *World, err error) {
 	w.Store.OneTime = cfg.OneTimeTOTP
 	w.Store.ProfileKeys = cfg.ProfileKeys
 	w.Store.PersistAll = cfg.PersistArbitrary
+	w.Store.SeparateEmail = cfg.SeparateEmail
 	w.Store.FoldPIDs = cfg.FoldPIDs
 	w.Store.ZoneLess = cfg.ZoneLessStore
 	if cfg.StoreTZ != 0 {
